@@ -1,6 +1,6 @@
 # instrument the concurrency core of the ingest path (engine E1); sourced by bin/check with $scratch set
 go build -modfile="$scratch/mod/go.mod" -o "$scratch/bin/rewrite" ./mc/rewrite || return 1
 "$scratch/bin/rewrite" -repo "$VERIF_REPO" -out "$scratch/inst" -overlay "$scratch/overlay.json" \
-   writer/service/genericInsertService.go writer/service/columnPool.go writer/service/insertColumnPools.go writer/utils/promise/promise.go writer/controller/builder.go \
+   writer/service/genericInsertService.go writer/service/columnPool.go writer/service/insertColumnPools.go writer/utils/promise/promise.go writer/controller/builder.go writer/utils/unmarshal/builder.go writer/utils/unmarshal/shared.go \
    writer/service/impl/samplesInsertService.go writer/service/impl/timeSeriesInsertService.go \
    writer/service/impl/tempoInsertService.go writer/service/impl/profileInsertService.go 2>"$scratch/rewrite.log" || { cat "$scratch/rewrite.log" >&2; return 1; }
